@@ -1520,6 +1520,7 @@ package stun
 //@   ensures m != nil && msg != nil && m.Type.Method == msg.Type.Method && m.Type.Class == msg.Type.Class && m.Length == msg.Length
 //@        |   && forall(j, 0, 12, m.TransactionID[j] == msg.TransactionID[j]) && PairwiseEq(m.Attributes, msg.Attributes) ==> result
 //@   ensures result && m != nil ==> msg != nil && m.Type.Method == msg.Type.Method && m.Type.Class == msg.Type.Class && m.Length == msg.Length && len(m.Attributes) == len(msg.Attributes)
+//@   ensures result && m != nil ==> forall(j, 0, 12, m.TransactionID[j] == msg.TransactionID[j])
 
 // ---- URI layer (C16, C17). net/url, net and strconv are trusted (spec/40_uri.spec); strings are abstract values. ----
 
